@@ -89,6 +89,31 @@ def mentions(expr, consts) -> bool:
     return False
 
 
+def _minted_since(expr, c0):
+    """names of uninterpreted symbols (constants or functions) in `expr` that were minted by T.fresh_name after the
+    counter value c0 (bound variables of quantifiers do not count)"""
+    out, seen, stack = [], set(), [expr]
+    while stack:
+        e = stack.pop()
+        k = e.get_id()
+        if k in seen:
+            continue
+        seen.add(k)
+        if z3.is_quantifier(e):
+            stack.append(e.body())
+            continue
+        if z3.is_app(e) and e.decl().kind() == z3.Z3_OP_UNINTERPRETED:
+            nm = e.decl().name()
+            if "!" in nm:
+                try:
+                    if int(nm.rsplit("!", 1)[1]) > c0:
+                        out.append(nm)
+                except ValueError:
+                    pass
+        stack.extend(e.children())
+    return out
+
+
 def _stray_constants(expr, formals):
     """uninterpreted 0-ary constants of `expr` that are neither formals nor global symbols (names minted by T.fresh_name)"""
     ids = {c.get_id() for c in formals}
@@ -854,12 +879,21 @@ class Executor:
         rng = z3.And(0 <= i, i < seq_len(src))
         st2.assume(rng)       # obligations emitted while evaluating the element see the index range
         n0 = len(st2.pc)
+        c0 = T._counter[0]
         elt = to_v(self.eval(st2, e.elt))
         for z in st2.pc[n0:]:
             if mentions(z, [i]):
+                # a fact that ties a symbol minted while evaluating the element (an inner comprehension, slice, callee
+                # result: ONE symbol for all indices) to the index cannot be stated for every index at once
+                minted = _minted_since(z, c0)
+                if minted:
+                    raise Unsupported(f"comprehension element needs a fresh value per index ({minted[0]}): nested "
+                                      "comprehension / slice / impure call inside a list comprehension")
                 st.assume(forall([i], z3.Implies(rng, z)))
             else:
                 st.assume(z)
+        if _minted_since(elt.z, c0):
+            raise Unsupported("comprehension element is a fresh value that does not depend on the index")
         r = fresh_seq(TList(elt.ty), st, "comp")
         st.assume(seq_len(r) == seq_len(src))
         st.assume(forall([i], z3.Implies(z3.And(0 <= i, i < seq_len(src)), z3.Select(seq_arr(r), i) == elt.z)))
@@ -1238,17 +1272,32 @@ class Executor:
             finally:
                 st.env = saved
         if isinstance(xs, V) and isinstance(xs.ty, TSet) and key is None:
-            # sorted(<set>): a list that enumerates the set without repetition (the order of the elements is not modelled)
-            r = fresh_seq(TList(xs.ty.elem), st, "sortedset")
-            i = z3.Int(T.fresh_name("qp"))
-            j = z3.Int(T.fresh_name("qp"))
-            x = z3.Const(T.fresh_name("qx"), xs.ty.elem.sort())
-            wit = z3.Function(T.fresh_name("setw"), xs.ty.elem.sort(), z3.IntSort())
-            st.assume(forall([i], z3.Implies(z3.And(0 <= i, i < seq_len(r)), z3.Select(xs.z, z3.Select(seq_arr(r), i)))))
-            st.assume(z3.ForAll([x], z3.Implies(z3.Select(xs.z, x), z3.And(0 <= wit(x), wit(x) < seq_len(r), z3.Select(seq_arr(r), wit(x)) == x))))
-            st.assume(forall([i, j], z3.Implies(z3.And(0 <= i, i < j, j < seq_len(r)), z3.Select(seq_arr(r), i) != z3.Select(seq_arr(r), j))))
-            self.externals_used.add("builtins.sorted (assumed for a set argument: a repetition-free enumeration of the set)")
-            return r
+            # sorted(<set>): a deterministic function of the set's value -- an uninterpreted function symbol (one per
+            # element type) whose result enumerates the set without repetition (the order itself is not modelled).  The
+            # axioms are closed, so the term may occur under quantifiers and in contract text (`sorted(s)` there too).
+            lty = TList(xs.ty.elem)
+            fk = "sorted_set:" + xs.ty.elem.key
+            if fk not in REC_DECLS:
+                F = z3.Function("sorted_set_" + T._mangle(xs.ty.elem.key), xs.ty.sort(), lty.sort())
+                W = z3.Function("sorted_set_at_" + T._mangle(xs.ty.elem.key), xs.ty.sort(), xs.ty.elem.sort(), z3.IntSort())
+                sv = z3.Const("ss_s", xs.ty.sort())
+                xv = z3.Const("ss_x", xs.ty.elem.sort())
+                i, j = z3.Int("ss_i"), z3.Int("ss_j")
+                ls = lty.sort()
+                ln, at = ls.len(F(sv)), (lambda k: z3.Select(ls.arr(F(sv)), k))
+                REC_DECLS[fk] = (F, [
+                    z3.ForAll([sv], ln >= 0, patterns=[F(sv)]),
+                    z3.ForAll([sv, i], z3.Implies(z3.And(0 <= i, i < ln), z3.Select(sv, at(i))), patterns=[at(i)]),
+                    z3.ForAll([sv, xv], z3.Implies(z3.Select(sv, xv), z3.And(0 <= W(sv, xv), W(sv, xv) < ln, at(W(sv, xv)) == xv)),
+                              patterns=[z3.MultiPattern(z3.Select(sv, xv), F(sv))]),
+                    z3.ForAll([sv, i, j], z3.Implies(z3.And(0 <= i, i < j, j < ln), at(i) != at(j)), patterns=[z3.MultiPattern(at(i), at(j))]),
+                ])
+            F, axs = REC_DECLS[fk]
+            if not ops.MODE.get("pure"):
+                for ax in axs:
+                    st.assume(ax)
+            self.externals_used.add("builtins.sorted (assumed for a set argument: a function of the set; a repetition-free enumeration of it)")
+            return V(lty, F(xs.z))
         if not (isinstance(xs, V) and isinstance(xs.ty, TList)):
             raise Unsupported("sorted() of non-list")
         r = fresh_seq(xs.ty, st, "sorted")
